@@ -587,6 +587,42 @@ def label_table_members(ck, rule):
                      f"every unpaired {side} label inside the segment is a label of the {side} table (the overlap is counted in labels)",
                      found=f"{len(kinds['unpaired'])} path(s) append position.position.{side}",
                      required=f"a ScoredNotAlignedPosition wrapping a {wanted_cls} is appended")
+        # 'indexes' are list indexes into segment.positions (the windows are sliced with them), not ordinals of the label
+        n_idx = 0
+        for pa in _explore(ck, fn, unroll=(2,), follow=own):
+            if pa.outcome != "return" or pa.value[0] != "new":
+                continue
+            args = dict(pa.value[2])
+            pos, idx = args.get("positions"), args.get("indexes")
+            if pos is None or idx is None or pos[0] != "list" or idx[0] != "list" or len(pos[1]) != len(idx[1]):
+                raise AnalysisError(f"{where(fn, pa.node)}: label / index lists of the characteristics not recognised: {T.show(pa.value)[:160]}")
+            for lab, ix in zip(pos[1], idx[1]):
+                ks = {x[2] for x in T.subterms(lab) if x[0] == "elem"}
+                if len(ks) != 1:
+                    continue
+                k = next(iter(ks))
+                n_idx += 1
+                if ix[0] == "call" and ix[1] == "len" and len(ix[2]) == 1 and ix[2][0][0] == "list":
+                    ix = ("c", len(ix[2][0][1]))
+                    ordinal = True
+                else:
+                    ordinal = False
+                if ix == ("c", k):
+                    continue
+                if ix[0] == "c" and isinstance(ix[1], int) and ordinal:
+                    ck.violation(rule, short(fn) + ":indexes", where(fn, pa.node),
+                                 f"the index recorded for a {side} label is its ordinal in the table, not its index in segment.positions: "
+                                 "with an unpaired label of the other map in front of it the conflict windows are sliced at too small an "
+                                 "index and a label stays in both resolved segments",
+                                 found=f"label taken from positions[{k}] recorded with index {ix[1]}", required=f"index {k}")
+                    break
+                raise AnalysisError(f"{where(fn, pa.node)}: index recorded for a {side} label not recognised: {T.show(ix)[:120]} for positions[{k}]")
+            else:
+                continue
+            break
+        else:
+            ck.judge(n_idx > 0, rule, short(fn) + ":indexes", w, f"a {side} label is recorded with its index in segment.positions",
+                     found=f"{n_idx} label(s) over two iterations")
     ck.floor(f"{rule} return paths of the label tables", n_paths, 6)
 
 
